@@ -3,6 +3,10 @@ use crate::known::Finding;
 use serde_json::Value;
 use std::collections::BTreeSet;
 
+pub mod c21;
+pub mod c22;
+pub mod c23;
+pub mod c34;
 pub mod hist;
 
 #[derive(Clone)]
@@ -53,5 +57,9 @@ pub struct PropInfo {
 pub fn registry() -> Vec<PropInfo> {
     let mut v = vec![];
     v.extend(hist::props());
+    v.extend(c21::props());
+    v.extend(c22::props());
+    v.extend(c23::props());
+    v.extend(c34::props());
     v
 }
